@@ -204,7 +204,8 @@ class RegionTable:
         self.entries = c_vhdx.region_table_entry[self.header.entry_count](fh)
         self.lookup = {UUID(bytes_le=e.guid): e for e in self.entries}
 
-        for guid, entry in self.lookup.items():
+        for entry in self.entries:
+            guid = UUID(bytes_le=entry.guid)
             if entry.required and guid not in (BAT_REGION_GUID, METADATA_REGION_GUID):
                 raise InvalidVirtualDisk(f"Unsupported required region: {guid}")
 
